@@ -83,6 +83,10 @@ CORPUS = [
     ("unicode-range-beyond-10ffff", H + "table(glyph) cA = glyphid(3..6); cB = glyphid(7..10); cD = unicode(0x61..2147483648); endtable;\n" + OKRULE, None, {}),
     ("scaled-number-as-glyph-id", H + "table(glyph) cA = glyphid(3..6); cB = glyphid(7, 8 0m, 9, 10); endtable;\n" + OKRULE, None, {}),
     ("unused-predefined-attr-as-value", H + "table(glyph) cA = glyphid(3..6) {ua1 = justify.0.stretch}; cB = glyphid(7..10); endtable;\n" + OKRULE, None, {}),
+    ("script-direction-out-of-range", H + "ScriptDirection = 32768;\n" + G + OKRULE, None, {}),
+    ("script-direction-vertical", H + "ScriptDirection = 4;\n" + G + OKRULE, None, {}),
+    ("class-as-slot-attr-value", H + "table(glyph) cA = glyphid(3..6) {collision.flags = 1}; cB = glyphid(7..10); endtable;\ntable(pos) pass(1) {CollisionFix = 3} cA {collision.flags = ANY} cB; endpass; endtable;\n", None, {}),
+    ("value-for-attribute-group", H + "table(glyph) cA = glyphid(3..6) {justify.0.stretch = 100m; justify.0 = 100m}; cB = glyphid(7..10); endtable;\n" + OKRULE, None, {}),
     ("zero-extent-glyph-collision", None, None, {"special": "zero-extent"}),
 ]
 
